@@ -119,7 +119,9 @@ class ChunkedTransferReader(object):
 
             trailer_data_list.append(trailer_data)
 
-            if not trailer_data.strip():
+            if trailer_data in (b'\r\n', b'\n', b''):
+                # Empty line (or the end of the stream). A line of white
+                # space only is the continuation of a folded field.
                 break
 
         return b''.join(trailer_data_list)
